@@ -1,2 +1,140 @@
-"""C17 -- not claimed."""
-NOT_APPLICABLE = '2-safety (self-composition of two runs) over the real scheduler.cpp/util.cpp with swapcontext fibers as baton threads and mt19937_64 as an uninterpreted stream; not built in the time available'
+"""C17 (partial) -- reproducibility from the seed: 2-safety (self-composition) over the REAL decision layer of the fiber fault
+runtime.  One encoding holds two instances of the whole module (= two processes, each with its own statics); a symbolic client
+program (fiber scripts) runs (0) in a fresh process, (1) again in the same process after SetSeed + SetInjectorState, (2) in the
+second process restored with ForwardToFaultRandomCount/SetInjectorState at the recorded point between its two phases.  The
+solver decides that every observable decision of runs 1 and 2 equals run 0's."""
+import os
+import core
+
+MODEL_RANDOM = '-I' + os.path.join(core.ROOT, 'harness', 'model_random')
+LIB = ['src/fault/util.cpp', 'src/fault/injector.cpp', 'src/fault/inject.cpp', 'src/fault/atomic.cpp', 'src/fault/config.cpp',
+       'src/fault/fiber/scheduler.cpp', 'src/fault/fiber/bidirectional_intrusive_list.cpp']
+NACT = 3
+ACTS = ['inject', 'cas', 'rand']
+EMAX = 64
+
+HEAD = r'''
+uint64_t __CPROVER_uninterpreted_mt19937_64(uint64_t, uint64_t);
+uint64_t vp_mt_draw(uint64_t seed, uint64_t index) {
+#ifdef VP_CBMC
+  uint64_t v = __CPROVER_uninterpreted_mt19937_64(seed, index);
+  __CPROVER_assume((v >> 16) == 0);   /* stated bound: drawn values range over 16 bits (all residues of the small moduli in use stay reachable) */
+  return v;
+#else
+  return seed * 6364136223846793005UL + index * 1442695040888963407UL;
+#endif
+}
+static uint32_t c17_scr[8], c17_argv[8], c17_pick[8];
+uint32_t vp_c17_script(uint32_t st) { return c17_scr[st & 7]; }
+uint32_t vp_c17_arg(uint32_t st) { return c17_argv[st & 7]; }
+uint32_t vp_c17_is_pick(uint32_t st) { return c17_pick[st & 7]; }
+static uint64_t c17_log0[%(EMAX)d];
+static int c17_n[3], c17_points, c17_b_start, c17_ended[3];
+static uint64_t c17_rec[2][2]; static int c17_pts[2];
+void vp_c17_log(uint32_t run, uint64_t ev) {
+  uint64_t kind = ev >> 56;
+  if (run == 0) {
+    VP_ASSERT(c17_n[0] < %(EMAX)d, "VP-BOUND: more events than the log holds");
+    c17_log0[c17_n[0]++] = ev;
+    if (kind == 6 && c17_points < 2) { c17_rec[0][c17_points++] = ev & 0xffffffffffUL; if (c17_points == 2) c17_b_start = c17_n[0]; }
+    if (kind == 7) c17_ended[0] = 1;
+    return;
+  }
+  int pos = c17_n[run]++ + (run == 2 ? c17_b_start : 0);
+  VP_ASSERT(pos < c17_n[0], "C17 the repeated run goes on after the original run had ended");
+  uint64_t want = c17_log0[pos < %(EMAX)d ? pos : 0];
+  if (kind == 2) VP_ASSERT(want == ev, "C17 an injected yield was not reproduced");
+  if (kind == 3) VP_ASSERT(want == ev, "C17 a spurious weak-CAS failure was not reproduced");
+  if (kind == 4) VP_ASSERT(want == ev, "C17 a client-visible random value was not reproduced");
+  if (kind == 5) VP_ASSERT(want == ev, "C17 the scheduler picked a different fiber (sequence of fiber switches not reproduced)");
+  if (kind == 6) {   /* the pair recorded by the re-run is USED (restore) rather than compared: only what it reproduces matters */
+    VP_ASSERT((want >> 56) == 6, "C17 the repeated run reaches the record point at a different place");
+    if (run == 1 && c17_pts[1] < 2) c17_rec[1][c17_pts[1]++] = ev & 0xffffffffffUL;
+  }
+  if (kind == 7) { VP_ASSERT(want == ev, "C17 the repeated run ended at a different point"); c17_ended[run] = 1; }
+}
+void c17_config_vpc1(uint32_t, uint32_t, uint32_t); void c17_config_vpc2(uint32_t, uint32_t, uint32_t);
+void c17_run_vpc1(uint32_t, uint32_t, uint32_t); void c17_restore_vpc2(uint32_t, uint32_t, uint64_t, uint32_t);
+uint32_t c17_injector_state_vpc1(void);
+static void c17_program(uint32_t mask, uint32_t picks) {
+  /* picks: 4 bits per step, 0 = an injection point / weak CAS / client random draw (symbolic which), n = the scheduler picks among n fibers */
+  for (int st = 0; st < 8; st++) {
+    uint32_t x = (uint32_t)nondet_u64(), y = (uint32_t)nondet_u64(), a = 99, g = 0;
+    for (uint32_t k = 0; k < 3; k++) if ((mask >> k) & 1) { if (a == 99) a = k; else if (x %% 4 == k) a = k; }
+    for (uint32_t k = 0; k < 6; k++) if (y == k) g = k;
+    c17_scr[st] = a; c17_argv[st] = g; c17_pick[st] = (picks >> (4 * st)) & 15;
+  }
+}
+static void c17_all(uint32_t mask, uint32_t picks, uint32_t freq, uint32_t cas, uint32_t pick, int reseeded_rerun, int restore) {
+  vp_init();
+  c17_program(mask, picks);
+  uint32_t seed = (uint32_t)nondet_u64();
+  c17_config_vpc1(freq, cas, pick);
+  uint32_t i0 = c17_injector_state_vpc1();
+  c17_run_vpc1(0, seed, i0);                                   /* a fresh process */
+  VP_ASSERT(c17_ended[0], "harness: run 0 did not end");
+  if (reseeded_rerun) {
+    c17_run_vpc1(1, seed, i0);                                 /* the same process, re-seeded, injector reset */
+    VP_ASSERT(c17_ended[1] && c17_n[1] == c17_n[0], "C17 the repeated run is shorter than the original");
+  }
+  if (restore) {
+    c17_config_vpc2(freq, cas, pick);                          /* a new process restored at the point between the phases */
+    int from = reseeded_rerun ? 1 : 0;                          /* the pair recorded by the original run, or by the re-run */
+    c17_restore_vpc2(2, seed, c17_rec[from][0], (uint32_t)c17_rec[from][1]);
+    VP_ASSERT(c17_ended[2] && c17_n[2] + c17_b_start == c17_n[0], "C17 the restored run is shorter than the original continuation");
+  }
+  VP_REACH("c17 end");
+}
+''' % {'EMAX': EMAX, 'NACT': NACT}
+
+
+def plan(tier, seed, ctx):
+    parts = [('harness/C17_sched.cpp', 'fiber20', (MODEL_RANDOM,))] + [(l, 'fiber20', (MODEL_RANDOM,)) for l in LIB]
+    modules = {'c17': parts}
+    queries = []
+    # action sets (bit mask over ACTS) x configuration (yield frequency, weak-CAS failure frequency, scheduler pick width)
+    # (name, action mask, scheduler picks: 4 bits per step = number of runnable fibers at that step or 0)
+    progs = [('faults', 0b111, 0), ('pick1', 0b111, 0x00300000), ('pick2', 0b111, 0x00000020), ('inj', 0b001, 0x20000000)] if tier == 'quick' else \
+            [('faults', 0b111, 0), ('pick1', 0b111, 0x00300000), ('pick2', 0b111, 0x00000020), ('pick3', 0b111, 0x02000300), ('pick4', 0b110, 0x10000001), ('inj', 0b001, 0x20000000)]
+    cfgs = [(1, 2, 10), (2, 13, 1), (3, 0, 2)] if tier == 'quick' else [(1, 2, 10), (2, 13, 1), (3, 0, 2), (16, 13, 10), (0, 1, 3), (5, 3, 2)]
+    first = True
+    for (mn, mask, picks) in progs:
+        for (freq, cas, pick) in cfgs:
+            for (mode, rr, rs) in (('rerun', 1, 0), ('restore', 0, 1), ('rerun_restore', 1, 1)):
+                nm = 'c17_%s_f%d_c%d_p%d_%s' % (mn, freq, cas, pick, mode)
+                queries.append({'name': nm, 'module': 'c17', 'main': (HEAD if first else '') + 'void %s(void) { c17_all(%du, 0x%xu, %d, %d, %d, %d, %d); }\n' % (nm, mask, picks, freq, cas, pick, rr, rs),
+                                'unwind': 12, 'unwindset': ['_ZNK6yaclib6detail5fiber6BiList10GetElementEmb%s.%d:5' % (c, l) for c in ('_vpc1', '_vpc2') for l in (0, 1, 2)],
+                                'timeout': 600 if tier == 'quick' else 3000, 'witness': 'any',
+                                'sample': 'client requests %s (symbolic which, 8 steps); scheduler picks at steps %s; yield frequency %d, weak-CAS failure frequency %d, pick width %d; %s' % (
+                                    [a for i, a in enumerate(ACTS) if (mask >> i) & 1], {i: (picks >> (4 * i)) & 15 for i in range(8) if (picks >> (4 * i)) & 15}, freq, cas, pick,
+                                    {'rerun': 'same process after SetSeed + SetInjectorState', 'restore': 'new process restored with ForwardToFaultRandomCount + SetInjectorState between the phases',
+                                     'rerun_restore': 'new process restored from the (count, state) pair recorded by the in-process re-run'}[mode]), 'extra': ['--sat-solver', 'cadical']})
+                first = False
+    meta = {
+        'rule': 'Self-composition: the seed and the client program (2 phases x 3 fibers x 3 actions out of %s, symbolic) are shared by three runs of the real code; run 0 records every '
+                'observable decision (fiber resumed, injected yield, spurious weak-CAS failure, client-visible random value, fiber end, random count and injector state between the phases), '
+                'runs 1 (same process, re-seeded, injector reset) and 2 (other process instance, restored at the record point) are compared with it event by event.' % ACTS,
+        'bounds': {'fibers_per_phase': 3, 'actions_per_fiber': 3, 'phases': 2, 'seed': 'symbolic 32-bit', 'configurations': cfgs, 'events_per_run': EMAX},
+        'stubs': ['std::mt19937_64 = an uninterpreted function of (seed, number of draws) (harness/model_random/random)',
+                  'ExecutionContext (context switch): Resume runs the fiber\'s script until it suspends; the stack allocator returns empty allocations',
+                  'fiber objects, the scheduler and the wait queue of every phase of every run live at different addresses (address-dependent decisions would differ)'],
+        'assumptions': ['NOT covered: sleeping / timed waits / virtual time (Scheduler::Sleep*, system_clock.cpp, std::map sleep list), thread::join, thread-local proxies, the real swapcontext switch, '
+                        'client programs that themselves read addresses or wall clocks, reproducibility across different builds',
+                        'actions after a suspension point inside one library call (SleepPreemptive clean-up) are not modelled; scripts suspend only through yield / wait / injected yield'],
+        'functions_filter': r'(Scheduler|Injector|Inject|GetRand|SetSeed|Forward|ShouldFail|BiList|FiberQueue|FiberBase|PollRandom|c17_)',
+        'explanation': 'Real code: src/fault/{util,injector,inject,atomic,config}.cpp, src/fault/fiber/{scheduler,queue,fiber_base,bidirectional_intrusive_list,wakeup_helper}.cpp (YACLIB_FAULT=2).',
+    }
+    return {'modules': modules, 'queries': queries, 'meta': meta, 'module_copies': {'c17': ['_vpc1', '_vpc2']},
+            'ir2c_opts': {'c17': {'ladder_funcs': [(r'fiber4Node5EraseEv', [0])], 'ladder_offsets': [48, 64, 80, 96, 112, 128], 'ladder_strict': True}},
+            'module_opts': {'c17': {'nthreads': 1, 'heap': 128, 'stack': 1024, 'defines': ['VP_NARROW_DIV=1']}}}
+
+
+MANIFEST = {
+    'level_text': 'For symbolic seeds and symbolic client programs (2 phases x 3 fibers x 3 actions: injection points, yields, weak CAS, spawn, wait/notify, random draws) the solver decides over the real '
+                  'scheduler / injector / random-count code that a re-run in the same process after SetSeed + SetInjectorState and a run in a new process restored with '
+                  'ForwardToFaultRandomCount + SetInjectorState reproduce every fiber switch, injected yield, spurious CAS failure, random value and the (count, state) pair of the original.',
+    'level_note': 'PARTIAL: sleeping, timed waits, virtual time, join, TLS proxies and the real context switch are outside; mt19937_64 is an uninterpreted function of (seed, draws). '
+                  'Trusted: clang -O1 IR, ir2c, rt, cbmc.',
+    'technique': 'bounded model checking of the real code: 2-safety by self-composition (two process instances in one encoding), uninterpreted random stream',
+    'design_ref': 'DESIGN.md 4 C17',
+}
